@@ -55,6 +55,30 @@ class EventGraph:
         calls = [s for s in srcs if s[0] == "call"]
         return calls
 
+    ERR_PRESERVING = ("core::result::Result::<T, E>::map", "core::result::Result::<T, E>::map_err",
+                      "core::result::Result::<T, E>::inspect", "core::result::Result::<T, E>::inspect_err")
+
+    def propagated(self, call_bb):
+        """The Result the call at call_bb (or the future it made, once awaited) produced is handed to the caller as the
+        body's own return value, at most through combinators that keep an Err an Err (`r.map(..)`, `r.map_err(..)`): the
+        failure is the helper's failure, exactly as with `r?` - and nothing else happens after it."""
+        keep = self.ERR_PRESERVING
+        srcs = self.tr.sources({"l": 0, "p": []}, through_calls=lambda n, t: through(n, t) or n in keep)
+        if not any(s_[0] == "call" and s_[2] == call_bb for s_ in srcs):
+            return False
+        # no further transport call once the Result exists
+        seen, st = set(), [nb for _, nb in self.edges.get(call_bb, [])]
+        while st:
+            x = st.pop()
+            if x in seen:
+                continue
+            seen.add(x)
+            ev = self.event.get(x)
+            if ev and ev[0] == "io":
+                return False
+            st.extend(n2 for _, n2 in self.edges.get(x, []))
+        return True
+
     def _build(self):
         b = self.b
         tr = self.tr
